@@ -343,7 +343,7 @@ def run(ck):
         ck.add_violation('translator:sol-guards', 'the integer decisions / format strings of the SOL writer and reader could not be re-translated from the source: %s' % tr_err,
                          {'translator': 'translators/gen_solguards.py', 'output': tr_err}, found_input=False)
     proof_ok, failing = ck.proof_stage('MpVerif.C05.Props', 'MpVerif/C05/Props.lean', 'C05_',
-                                        ['MpVerif/C05/*.lean', 'MpVerif/C14/Model*.lean', 'MpVerif/C14/Lemmas*.lean', 'MpVerif/Gen/SolGuards.lean'], expect_min=28)
+                                        ['MpVerif/C05/*.lean', 'MpVerif/C14/Model*.lean', 'MpVerif/C14/Lemmas*.lean', 'MpVerif/Gen/SolGuards.lean'], expect_min=31)
     ck.log('proof stage: ok=%s failing=%s' % (proof_ok, failing[:12]))
     if ck.tier == 'thorough' and proof_ok:
         bad = ck.leanchecker(['MpVerif.C05.Props'])
@@ -387,6 +387,7 @@ def run(ck):
     n_int_big = 0
     n_dec = [0, 0]
     dec_expect = {}
+    n_assume = [0, 0]
     n_goodsuf = 0
     distinct = set()
     for k, ((s, nvd, ncd), il, ml) in enumerate(zip(cases, impl, model)):
@@ -435,6 +436,17 @@ def run(ck):
                     except OverflowError:
                         want5 = math.inf if fr > 0 else -math.inf
                     ok5 = struct.pack('<d', want5) == struct.pack('<d', float(tok5))
+                    # the two ASSUMPTIONS of C05_real_vector_within_1e15, sampled: G16 (the printed decimal is a nearest 16-significant-digit decimal of x)
+                    # and CorrRounded (the double read back is within 2^-53 relative of the decimal, normal range)
+                    if x5 != 0 and int(m5) != 0:
+                        s5 = Fraction(10) ** (int(e5) + len(str(abs(int(m5)))) - 16)
+                        n_assume[0] += 1
+                        if not (10 ** 15 * s5 <= abs(fr) and abs(Fraction(x5) - fr) <= s5 / 2):
+                            ck.add_violation('assumption:G16', 'the text %r printed for %r is not a nearest 16-significant-digit decimal (unit %s)' % (tok5, x5, s5), {'case': cl})
+                        if Fraction(2) ** -1022 <= abs(fr) <= Fraction(sys.float_info.max):
+                            n_assume[1] += 1
+                            if not abs(Fraction(want5) - fr) <= abs(fr) / 2 ** 53:
+                                ck.add_violation('assumption:CorrRounded', 'the nearest double %r of the text %r is not within 2^-53 relative' % (want5, tok5), {'case': cl})
                     dec_expect.setdefault(k, []).append(want5)
                 n_dec[0] += 1
                 if not ok5:
@@ -522,7 +534,7 @@ def run(ck):
                 'mp::ReadSOLFile; distinct = distinct event lists read back; compared with writeSol/readSol of the Lean model (bytes and events) and with the intent',
         'traces_validated_against_impl': len(cases) - len(corr_bad),
         'generator_families': fam, 'files_bytes_equal_model': n_bytes_equal, 'roundtrip_ok': n_roundtrip_ok, 'failure_classes': classes,
-        'reals_in_vectors': n_reals, 'reals_satisfying_GoodNum_hypothesis': n_good, 'integral_reals_matching_text_model_fmtG16Int': n_int, 'of_which_at_least_1e16_scientific_notation': n_int_big, 'vector_texts_with_parseDec_value_rounding_to_strtod_result': n_dec[0], 'of_which_compared_with_the_double_the_real_reader_delivered': n_dec[1], 'suffix_reals_satisfying_GoodSufTok_hypothesis': n_goodsuf,
+        'reals_in_vectors': n_reals, 'reals_satisfying_GoodNum_hypothesis': n_good, 'integral_reals_matching_text_model_fmtG16Int': n_int, 'of_which_at_least_1e16_scientific_notation': n_int_big, 'vector_texts_with_parseDec_value_rounding_to_strtod_result': n_dec[0], 'of_which_compared_with_the_double_the_real_reader_delivered': n_dec[1], 'g16_assumption_checked': n_assume[0], 'strtod_assumption_checked': n_assume[1], 'suffix_reals_satisfying_GoodSufTok_hypothesis': n_goodsuf,
         'codec_test': {'label': 'TEST (not proved): fmt {:.16} -> strtod/decstring on doubles', 'doubles': int(m.group(1)) if m else 0, 'bad': int(m.group(2)) if m else None},
         'correspondence': {'lines_compared_model_vs_impl': len(cases), 'disagreements': len(corr_bad)}, 'exhaustive': False,
         
